@@ -6,6 +6,7 @@
  * code; it may include library headers, the simulator proper may not.
  */
 #define private public          /* AffinePair::r, PreparedPair::coeff_idx for the layout table */
+#include <new>
 #include "bls12_381/pairing.hpp"
 #undef private
 
@@ -419,6 +420,13 @@ void jv_wk_sk_set_bidx(void* sk, int i, uint32_t idx) { static_cast<wk::SecretKe
 size_t jv_pair_size(int view, int prepared) {
     if (view == 0) return prepared ? sizeof(embedded_pairing_bls12_381_prepared_pair_t) : sizeof(embedded_pairing_bls12_381_affine_pair_t);
     return prepared ? sizeof(bls::PreparedPair) : sizeof(bls::AffinePair);
+}
+/* What declaring the array does in each language: a C++ caller's records are default-constructed objects (a no-op today; it runs
+   default member initialisers if the type ever gets any), a C caller's records are raw memory with whatever it held before. */
+void jv_pair_init(int view, void* arr, size_t n, int prepared) {
+    if (view == 0) return;
+    if (prepared) { bls::PreparedPair* a = static_cast<bls::PreparedPair*>(arr); for (size_t i = 0; i < n; i++) new (&a[i]) bls::PreparedPair; }
+    else { bls::AffinePair* a = static_cast<bls::AffinePair*>(arr); for (size_t i = 0; i < n; i++) new (&a[i]) bls::AffinePair; }
 }
 void jv_apair_set(int view, void* arr, size_t i, const void* g1a, const void* g2a) {
     if (view == 0) { embedded_pairing_bls12_381_affine_pair_t* a = static_cast<embedded_pairing_bls12_381_affine_pair_t*>(arr); a[i].g1 = (embedded_pairing_bls12_381_g1affine_t*) g1a; a[i].g2 = (embedded_pairing_bls12_381_g2affine_t*) g2a; return; }
